@@ -2,13 +2,17 @@
    Combo, with the explicit group stack of the code, and the flat expansion it should equal (C11). *)
 Require Import Base.
 
+(* one step on a ComboRoute held in a variable: a method registration, or an AutoHead toggle on the router
+   between two of them (the setting is read when .Get registers, not when Combo creates the value) *)
+Inductive cuse := CUse (m : str) (hs : list nat) | CAuto (b : bool).
+
 Inductive stmt :=
 | SRoute (method : str) (path : str) (hs : list nat) (hdr : bool)
 | SGet (path : str) (hs : list nat) (hdr : bool)          (* honours AutoHead *)
 | SRoutes (path : str) (methods : str) (extra : list str) (hs : list nat) (hdr : bool)
 | SAny (path : str) (hs : list nat) (hdr : bool)
 | SGroup (path : str) (hs : list nat) (body : list stmt)
-| SCombo (path : str) (common : list nat) (uses : list (str * list nat))
+| SCombo (path : str) (common : list nat) (uses : list cuse)
 | SAutoHead (b : bool).
 
 (* hdr: the statement is followed by .Headers(...) on the *Route it returns (Get: the GET route, not its
@@ -52,16 +56,17 @@ Definition route_in (g : gst) (m path : str) (hs : list nat) (hdr : bool) : freg
 Definition get_in (g : gst) (path : str) (hs : list nat) (hdr : bool) : list freg :=
   route_in g m_get path hs hdr :: (if autohead g then [route_in g m_head path hs false] else []).
 
-(* ComboRoute.route: the same method twice is refused *)
-Fixpoint combo_in (g : gst) (path : str) (common : list nat) (added : list str) (uses : list (str * list nat))
-  : option (list freg) :=
+(* ComboRoute.route: the same method twice is refused; the AutoHead setting current at each .Get counts *)
+Fixpoint combo_in (g : gst) (path : str) (common : list nat) (added : list str) (uses : list cuse)
+  : option (bool * list freg) :=
   match uses with
-  | [] => Some []
-  | (m, hs) :: rest =>
+  | [] => Some (autohead g, [])
+  | CAuto b :: rest => combo_in (mkg b (groups g)) path common added rest
+  | CUse m hs :: rest =>
       if existsb (str_eqb m) added then None
       else match combo_in g path common (m :: added) rest with
            | None => None
-           | Some l => Some ((if str_eqb m m_get then get_in g path (common ++ hs) false else [route_in g m path (common ++ hs) false]) ++ l)
+           | Some (ah, l) => Some (ah, (if str_eqb m m_get then get_in g path (common ++ hs) false else [route_in g m path (common ++ hs) false]) ++ l)
            end
   end.
 
@@ -100,7 +105,7 @@ Fixpoint exec_stmt (fuel : nat) (g : gst) (s : stmt) {struct fuel} : option (gst
         | Some (g2, r) => Some (mkg (autohead g2) (removelast (groups g2)), r)
         end
     | SCombo path common uses =>
-        match combo_in g path common [] uses with Some l => Some (g, l) | None => None end
+        match combo_in g path common [] uses with Some (ah, l) => Some (mkg ah (groups g), l) | None => None end
     | SAutoHead b => Some (mkg b (groups g), [])
     end
   end.
@@ -125,14 +130,15 @@ Definition get_at (ah : bool) (pp : str) (ph : list nat) (path : str) (hs : list
   reg_at pp ph m_get path hs hdr :: (if ah then [reg_at pp ph m_head path hs false] else []).
 
 Fixpoint combo_at (ah : bool) (pp : str) (ph : list nat) (path : str) (common : list nat) (added : list str)
-  (uses : list (str * list nat)) : option (list freg) :=
+  (uses : list cuse) : option (bool * list freg) :=
   match uses with
-  | [] => Some []
-  | (m, hs) :: rest =>
+  | [] => Some (ah, [])
+  | CAuto b :: rest => combo_at b pp ph path common added rest
+  | CUse m hs :: rest =>
       if existsb (str_eqb m) added then None
       else match combo_at ah pp ph path common (m :: added) rest with
            | None => None
-           | Some l => Some ((if str_eqb m m_get then get_at ah pp ph path (common ++ hs) false else [reg_at pp ph m path (common ++ hs) false]) ++ l)
+           | Some (ah', l) => Some (ah', (if str_eqb m m_get then get_at ah pp ph path (common ++ hs) false else [reg_at pp ph m path (common ++ hs) false]) ++ l)
            end
   end.
 
@@ -150,7 +156,7 @@ Fixpoint flatten_stmt (ah : bool) (pp : str) (ph : list nat) (s : stmt) {struct 
   | SGroup path hs body =>
       seq_list (fun ah s => flatten_stmt ah (pp ++ path) (ph ++ hs) s) ah body
   | SCombo path common uses =>
-      match combo_at ah pp ph path common [] uses with Some l => Some (ah, l) | None => None end
+      combo_at ah pp ph path common [] uses
   | SAutoHead b => Some (b, [])
   end.
 
